@@ -115,7 +115,10 @@ def render_env(envdef):
     if envdef.get("imports"):
         items = []
         for n, m in envdef["imports"]:
-            items.append(json.dumps(n) if m else "{%s: {merge: false}}" % json.dumps(n))
+            # m: True = the plain name; "empty" = object form without a merge key (`{name: {}}`, merged by default);
+            # "explicit" = `{name: {merge: true}}`; False = `{name: {merge: false}}`
+            items.append("{%s: {}}" % json.dumps(n) if m == "empty" else "{%s: {merge: true}}" % json.dumps(n) if m == "explicit"
+                         else json.dumps(n) if m else "{%s: {merge: false}}" % json.dumps(n))
         parts.append("imports: [" + ", ".join(items) + "]")
     if envdef.get("values") is not None and (envdef["values"] or not envdef.get("imports")):
         parts.append("values: " + dumps(OrderedObj([(k, to_jsonable(v)) for k, v in envdef["values"]])))
